@@ -211,6 +211,15 @@ func (w *World) VerifyFunc(fi *FuncInfo, c *Contract, opts VerifyOpts) (res *Uni
 		if w.EmittedPaths[fi.Obj.Pkg().Path()] {
 			ex.requestWellFormed(p, val)
 		}
+		if sl, ok := v.Type().Underlying().(*types.Slice); ok {
+			if ptr, ok := sl.Elem().Underlying().(*types.Pointer); ok {
+				if n, ok := types.Unalias(ptr.Elem()).(*types.Named); ok && n.Obj().Pkg() != nil && strings.HasSuffix(n.Obj().Pkg().Path(), "compiler/protogen") {
+					// protogen never puts nil entries into its lists: a list of descriptors handed to a function has none
+					ctx.Trust("a parameter of type []*protogen.T holds no nil entry (protogen's lists never do)")
+					p.Assume("(forall ((k!p Int)) (=> (and (<= 0 k!p) (< k!p " + ctx.sliceLen(val) + ")) (not (= " + ctx.sliceAt(val, "k!p") + " null))))")
+				}
+			}
+		}
 		if cname != "" && cname != "_" {
 			p.entry[cname] = val
 			if ex.paramAlias == nil {
@@ -443,7 +452,9 @@ func (ex *Exec) installAxiom(ax *SpecAxiom) {
 	ex.contractMode++
 	saveObl := ex.oblCalls
 	ex.oblCalls = false
+	ex.noBirth++
 	body := ex.evalCE(q, ax.Body)
+	ex.noBirth--
 	if len(axInvs) > 0 {
 		body.T = implies(and(axInvs...), body.T)
 	}
@@ -482,7 +493,7 @@ func (ex *Exec) discharge(opts VerifyOpts) []OblResult {
 			results[i] = OblResult{Name: name, Status: "skipped"}
 			continue
 		}
-		var disj, weak, reach []string
+		var disj, weak, reach, reachFull []string
 		var where []string
 		hasQuant := ex.c.HasQuantAxioms()
 		for _, in := range o.Insts {
@@ -500,6 +511,7 @@ func (ex *Exec) discharge(opts VerifyOpts) []OblResult {
 			}
 			weak = append(weak, and(and(qf...), not(in.Goal)))
 			reach = append(reach, and(qf...))
+			reachFull = append(reachFull, in.PC)
 			where = append(where, in.Pos)
 		}
 		r := OblResult{Name: name, Kind: o.Kind, Func: o.Func, Text: o.Text, Insts: len(o.Insts), Where: strings.Join(uniq(where), ",")}
@@ -515,10 +527,11 @@ func (ex *Exec) discharge(opts VerifyOpts) []OblResult {
 			weakScript = ex.c.PreludeNoQuantAxioms() + "(assert " + or(weak...) + ")\n"
 		}
 		r.Script = script
-		reachScript := ""
+		reachScript, reachFullScript := "", ""
 		switch o.Kind {
 		case "ensures", "at-call", "invariant", "decreases", "requires", "frame", "lemma":
 			reachScript = ex.c.PreludeNoQuantAxioms() + "(assert " + or(reach...) + ")\n"
+			reachFullScript = prelude + "(assert " + or(reachFull...) + ")\n"
 		}
 		wg.Add(1)
 		go func(i int, r OblResult, o *Obligation, script, weakScript string) {
@@ -531,6 +544,15 @@ func (ex *Exec) discharge(opts VerifyOpts) []OblResult {
 					if rr.Status == "unsat" {
 						results[i].Status = "vacuous"
 						results[i].Raw = "every path that reaches this obligation has contradictory hypotheses (quantifier-free part already unsatisfiable): nothing is proved"
+					} else if reachFullScript != "" && !strings.Contains(results[i].Backend, "without quantified assumptions") {
+						// the proof used quantified assumptions (axioms, callee postconditions, invariants): if those, together
+						// with the path conditions, are refutable by themselves, the proof shows nothing either
+						rf := Solve(reachFullScript, 2*time.Second, false)
+						results[i].SolverMs += rf.Ms
+						if rf.Status == "unsat" {
+							results[i].Status = "vacuous"
+							results[i].Raw = "the hypotheses of this obligation (path conditions with the quantified assumptions and axioms) are contradictory by themselves: nothing is proved"
+						}
 					}
 				}
 			}()
